@@ -65,19 +65,30 @@ extern "C" void harness_geom_i_edges() {
   int the = probe_below(2 * S.nE), te = the >> 1;
   int from = snap_he_from(S, the), to = snap_he_to(S, the);
   V3i d = m.vector(HEH(the)), de = m.vector(EH(te));
-  int sq = 0;
   for (int k = 0; k < 3; ++k) {
-    int dk = wsub(PI[to][k], PI[from][k]);
-    v_assert(d[(size_t)k] == dk, "C19 vector(halfedge) == position(to) - position(from)");
+    v_assert(d[(size_t)k] == wsub(PI[to][k], PI[from][k]), "C19 vector(halfedge) == position(to) - position(from)");
     v_assert(de[(size_t)k] == wsub(PI[S.eto[te]][k], PI[S.efrom[te]][k]), "C19 vector(edge) == position(to) - position(from)");
-    sq = wadd(sq, wmul(dk, dk));
   }
-  // length: value_type(norm(vector)), norm = sqrt(sqrnorm) with the shared uninterpreted sqrt; sqrnorm is the same for both halfedges
-  int len = (int)std::sqrt((double)sq);
-  v_assert(m.length(HEH(the)) == len, "C19 length(halfedge) == (Scalar) sqrt(sqrnorm(vector(halfedge)))");
-  v_assert(m.length(EH(te)) == len, "C19 length(edge) == (Scalar) sqrt(sqrnorm(vector(edge)))");
   if (the & 1) v_witness("geom int: odd halfedge probe");
-  v_witness("geom int: vertex/vector/length");
+  v_witness("geom int: vertex/vector");
+}
+
+// length: value_type(norm(vector)), norm = sqrt(sqrnorm) with the shared uninterpreted sqrt
+extern "C" void harness_geom_i_length() {
+  MeshI m;
+  if (!setup_i(m)) return;
+  if (S.nE == 0) { v_witness("geom int length: no edges"); return; }
+  // halfedges are enumerated here (not probed): with concrete handles both sides read the same position symbols,
+  // which keeps the multiplier equivalence within reach of the SAT back ends (SMT back ends fail on mesh-level code)
+  for (int he = 0; he < 2 * S.nE; ++he) {
+    int from = snap_he_from(S, he), to = snap_he_to(S, he);
+    int sq = 0;
+    for (int k = 0; k < 3; ++k) { int dk = wsub(PI[to][k], PI[from][k]); sq = wadd(sq, wmul(dk, dk)); }
+    int len = (int)std::sqrt((double)sq);
+    v_assert(m.length(HEH(he)) == len, "C19 length(halfedge) == (Scalar) sqrt(sqrnorm(vector(halfedge)))");
+    if ((he & 1) == 0) v_assert(m.length(EH(he >> 1)) == len, "C19 length(edge) == (Scalar) sqrt(sqrnorm(vector(edge)))");
+  }
+  v_witness("geom int: length");
 }
 
 // barycenter(face), barycenter(cell): (sum of the positions of the entity's vertices) / (number of vertices) in Scalar arithmetic
